@@ -617,3 +617,64 @@ def check_C20(chk):
                 "objects; judged by Trace_Wire.SerdeOK (exact identity of header/groups/values, payload empty afterwards)")
     chk.assumptions = ["JSON as the carrier format", "TLC", "harness projection"]
     wire_pipeline(chk, "C20", "GenOp", 1, 2)
+
+
+HTTP_INV = ["OnePost", "OkOnlyIfGood", "GoodIsReturned", "OwnResponse"]
+
+
+def http_describe(ev):
+    k = ev.get("ev")
+    if k == "srv":
+        return ("the request seen by the loopback server is not the one configured/built: %s %s (expected target %s), "
+                "framing %s, body term=%s pay_ok=%s, headers %s" % (
+                    ev.get("method"), ev.get("target"), ev.get("exp_target"), ev.get("body_framing"), ev.get("term"),
+                    ev.get("pay_ok"), json.dumps(ev.get("hdr"))[:400]))
+    if k == "ret":
+        return "send() of the %s client returned %s which the exchange design does not allow (request id %s, %s ms)" % (
+            ev.get("client"), json.dumps(trunc_json(ev.get("res"), 150))[:400], ev.get("rid"), ev.get("ms"))
+    if k == "endx":
+        return "an exchange ended with a send that did not return, or with a number of POSTs other than one per send"
+    return "event %s not accepted" % k
+
+
+def check_C11(chk):
+    q = chk.tier == "quick"
+    chk.rule = ("exchanges = (i) every behaviour of MC_Http for one client (3 framings x {200,404,500} x cut x stall) and "
+                "for three concurrent sends through one shared client (3 framings each, every reply order chosen by the "
+                "server), replayed with both real clients against the loopback server; (ii) native: every cut offset "
+                "inside header+attributes under each framing, every 4xx/5xx status (sampled in quick), response "
+                "fragmentations {1 octet, 7, random, whole}, request payloads up to 1 MiB (3 MiB thorough) from "
+                "fragmented / not-ready sources, response payloads up to 2 MiB, IPv6 literal targets, 3 client "
+                "configurations (headers, Basic credentials, timeout); one evaluation = one send(); judged by Trace_Http")
+    chk.assumptions = ["the HTTP stacks (ureq, reqwest, hyper) are exercised, not modelled", "statuses 200, 4xx, 5xx only",
+                       "loopback networking; timeouts 300 ms against a 5 s stall", "response bodies are produced by the "
+                       "library's own encoder (judged by C03)"]
+    build_harness()
+    wd = workdir("C11")
+    cases = os.path.join(wd, "cases.ndjson")
+    open(cases, "w").close()
+    plans = [
+        ("one", dict(Clients={1}, Framings={"length", "chunked", "close"}, Statuses={200, 404, 500}, Cuts={False, True},
+                     Stalls={False, True}, CheckStatus=True, Slots="own")),
+        ("three", dict(Clients={1, 2, 3}, Framings={"length", "chunked", "close"} if not q else {"length", "chunked"},
+                       Statuses={200}, Cuts={False}, Stalls={False}, CheckStatus=True, Slots="own")),
+    ]
+    for label, c in plans:
+        part = os.path.join(wd, "cases_%s.ndjson" % label)
+        r = mc("C11", "mc_" + label, "MC_Http.tla", c, HTTP_INV + ["Gen"], properties=["AllReturn"], case_file=part)
+        chk.add_mc(r, "MC_Http/%s" % label)
+        with open(cases, "a") as f:
+            f.write(open(part).read())
+    # a mixed concurrent configuration is model-checked (not replayed): bad scripts next to good ones
+    r = mc("C11", "mc_mixed", "MC_Http.tla", dict(Clients={1, 2}, Framings={"length", "close"}, Statuses={200, 503},
+                                                  Cuts={False, True}, Stalls={False, True}, CheckStatus=True, Slots="own"),
+           HTTP_INV, properties=["AllReturn"])
+    chk.add_mc(r, "MC_Http/mixed (2 clients, faults)")
+    out = os.path.join(wd, "run")
+    harness("vh", ["net", "--out", out, "--seed", chk.seed, "--tier", chk.tier, "--cases", cases], timeout=7200)
+    run_sample(chk, out)
+    validate_with_retries(chk, "trace_http", "Trace_Http.tla", os.path.join(out, "trace.ndjson"),
+                          os.path.join(out, "trace.side.ndjson"), describe=http_describe, drop_runs=True,
+                          block=(("exch",), ("exch",)))
+    chk.extra["events_validated"] = chk.traces
+    chk.traces = max(0, chk.evaluations - len(chk.violations))
